@@ -52,7 +52,7 @@ ASSUMPTIONS = [
 SHARDS = {"quick": 4, "thorough": 16}
 TIMEOUT = {"quick": 240, "thorough": 1800}
 MIN_EVALS = 40
-REQUIRED_COUNTERS = ("clean_syncs_judged", "fault_runs_fired", "next_syncs_run", "failing_next_syncs_run")
+REQUIRED_COUNTERS = ("clean_syncs_judged", "fault_runs_fired", "next_syncs_run", "failing_next_syncs_run", "histories")
 
 REPO = "name"
 RUN_TIMEOUT = 90
@@ -79,11 +79,18 @@ def _serve(sock, srvdir, parent):
 
         def do_GET(self):
             # /<behaviour>/<etag>/<lmN>/<blob>
+            #   or /ctl/<control file>/lm0/<any name>: the control file (JSON, rewritten by the client between the syncs
+            #   of one syncer object, whose URI is fixed) names behaviour, etag, lm and blob
             try:
                 _, behaviour, etag, lm, blob = self.path.split("/", 4)
+                if behaviour == "ctl":
+                    import json
+                    with open(os.path.join(srvdir, os.path.basename(etag))) as f:
+                        c = json.load(f)
+                    behaviour, etag, lm, blob = c["behaviour"], c["etag"], "lm%d" % c.get("lm", 0), c["blob"]
                 with open(os.path.join(srvdir, os.path.basename(blob)), "rb") as f:
                     data = f.read()
-            except (ValueError, OSError):
+            except (ValueError, OSError, KeyError):
                 self.send_error(404)
                 return
             if behaviour in ("404", "500"):
@@ -335,7 +342,9 @@ class Env:
                 continue
             p = os.path.join(d, n)
             if os.path.isdir(p) and not os.path.islink(p):
-                out[n] = ref.state_of_any(ref.observed_tree(self.fssnap.snap(p)), olds, new)
+                t = ref.observed_tree(self.fssnap.snap(p))
+                # "new" first: in a fault sequence the tree before the sync may already be the one being installed
+                out[n] = "new" if new is not None and ref.same(t, new) else ref.state_of_any(t, olds, new)
             else:
                 out[n] = "non-directory"
         return out
@@ -742,6 +751,296 @@ def run_sequence(ctx, server, sc, tag, rng, n):
         env.close()
 
 
+# ------------------------------------------------------------------------------------------------------------------
+# histories: several syncs through ONE syncer object in ONE process (a long-running caller)
+
+INTERRUPTS = [("rename", 2, "before"), ("rename", 1, "before"), ("rename", 2, "after"), ("mkdir", 2, "after"),
+              ("mkdir", 3, "after"), ("run", 1, "before"), ("run", 1, "after")]
+
+
+def history_fn(basedir, reposdir, uri, tmpdir, ctl_path, steps):
+    """Child side: one tar_syncer object, one sync per step; before each step the server's control file is rewritten; an
+    'interrupt' step raises KeyboardInterrupt (not an OSError: nothing in the syncer handles it) before/after the n-th call
+    of os.rename / os.mkdir on a path below repos/ or of subprocess.run.  After each step the whole repos/ directory is
+    snapshotted with fssnap; at the end the process' exit handlers run and a last snapshot is taken."""
+    def fn():
+        import atexit
+        import io
+        import json
+        import subprocess
+        import tempfile
+
+        from .. import fssnap
+
+        atexit._clear()
+        tempfile.tempdir = tmpdir
+        try:
+            c = tempfile._TemporaryFileCloser.cleanup
+            c.__defaults__ = tuple(os.unlink if getattr(d, "__name__", "") == "unlink" else d for d in c.__defaults__)
+        except Exception:
+            pass
+        sys.stdout = io.StringIO()
+        sys.stderr = io.StringIO()
+        sys.unraisablehook = lambda *a: None
+        armed = {"func": None, "nth": 0, "when": "", "count": 0, "fired": False}
+        root = os.path.realpath(reposdir)
+
+        def hit(func):
+            if armed["func"] != func:
+                return False
+            armed["count"] += 1
+            return armed["count"] == armed["nth"] and not armed["fired"]
+
+        def wrap_path(func, orig):
+            def w(*a, **kw):
+                under = any(isinstance(x, (str, bytes)) and os.path.realpath(os.fsdecode(x).rstrip("/") or "/").startswith(root + "/")
+                            for x in a[:2])
+                h = under and hit(func)
+                if h and armed["when"] == "before":
+                    armed["fired"] = True
+                    raise KeyboardInterrupt()
+                r = orig(*a, **kw)
+                if h:
+                    armed["fired"] = True
+                    raise KeyboardInterrupt()
+                return r
+            return w
+
+        os.rename = wrap_path("rename", os.rename)
+        os.mkdir = wrap_path("mkdir", os.mkdir)
+        orig_run = subprocess.run
+
+        def run(*a, **kw):
+            h = hit("run")
+            if h and armed["when"] == "before":
+                armed["fired"] = True
+                raise KeyboardInterrupt()
+            r = orig_run(*a, **kw)
+            if h:
+                armed["fired"] = True
+                raise KeyboardInterrupt()
+            return r
+
+        subprocess.run = run
+        from pkgcore.sync.tar import tar_syncer
+        out = {"steps": [], "final": None, "ctor_exc": None}
+        try:
+            try:
+                s = tar_syncer(basedir, uri)
+            except Exception as e:
+                out["ctor_exc"] = "%s: %s" % (type(e).__name__, e)
+                return out
+            for st in steps:
+                with open(ctl_path + ".new", "w") as f:
+                    json.dump(st["ctl"], f)
+                os.replace(ctl_path + ".new", ctl_path)
+                it = st.get("interrupt")
+                armed.update(func=it[0] if it else None, nth=it[1] if it else 0, when=it[2] if it else "", count=0, fired=False)
+                rec = {"ret": None, "exc_type": None, "exc": None, "interrupted": False}
+                try:
+                    r = s.sync()
+                    rec["ret"] = r if isinstance(r, (bool, int, type(None))) else repr(r)
+                except KeyboardInterrupt:
+                    rec["interrupted"] = True
+                except Exception as e:
+                    rec["exc_type"], rec["exc"] = type(e).__name__, str(e)[:300]
+                rec["fired"] = armed["fired"]
+                armed["func"] = None
+                rec["snap"] = fssnap.snap(reposdir)
+                out["steps"].append(rec)
+        finally:
+            armed["func"] = None
+            atexit._run_exitfuncs()
+        out["final"] = fssnap.snap(reposdir)
+        return out
+
+    return fn
+
+
+def _sub(snap, name):
+    """The snapshot of repos/<name> out of a snapshot of repos/ (None when it is not a directory there)."""
+    if snap is None or snap.get(name, {}).get("type") != "dir":
+        return None
+    return {k[len(name) + 1:]: v for k, v in snap.items() if k.startswith(name + "/")}
+
+
+def make_history(sc, kinds):
+    """kinds: list of "good" | "404" | "truncated" | "corrupt" | ("interrupt", func, nth, when).  Good and interrupted
+    syncs target the new and the later generation alternately, each with an ETag of its own (so it has to install)."""
+    steps = []
+    target = "new"
+    for i, kd in enumerate(kinds):
+        if kd == "good" or isinstance(kd, (list, tuple)):
+            st = {"kind": "good" if kd == "good" else "interrupt", "target": target}
+            if kd != "good":
+                st["interrupt"] = list(kd[1:])
+            target = "later" if target == "new" else "new"
+        else:
+            st = {"kind": kd, "target": None}
+        steps.append(st)
+    return {"scenario": sc, "steps": steps}
+
+
+def run_history(ctx, server, hist, tag):
+    from .. import fssnap
+
+    sc = hist["scenario"]
+    env = Env(ctx, server, sc, tag)
+    try:
+        if not env.build_template():
+            ctx.count("scenario_template_unusable")
+            return
+        env.restore()
+        n = re.sub(r"[^A-Za-z0-9_.-]", "_", sc["name"])
+        ctl = "ctl-%s-%s.json" % (n, tag)
+        exp = {"new": env.exp_new, "later": env.exp_later}
+        blob = {"new": env.blob["good"], "later": env.blob["later"]}
+        steps = []
+        for i, st in enumerate(hist["steps"]):
+            k = st["kind"]
+            if k in ("good", "interrupt"):
+                c = {"behaviour": "ok", "etag": "h%d-%s" % (i, n), "lm": 0, "blob": blob[st["target"]]}
+            elif k == "404":
+                c = {"behaviour": "404", "etag": "h%d-%s" % (i, n), "lm": 0, "blob": env.blob["good"]}
+            else:
+                c = {"behaviour": "ok", "etag": "h%d-%s" % (i, n), "lm": 0, "blob": env.blob[k]}
+            steps.append(dict(st, ctl=c))
+        uri = server.uri("ctl", ctl, 0, "repo.tar.%s" % sc["comp"])
+        reposdir = os.path.join(env.work, "repos")
+        before_snap = env.repo_snap()
+        os.makedirs(env.tmpdir, exist_ok=True)
+        res = env.fault.run_injected(history_fn(env.basedir, reposdir, uri, env.tmpdir, os.path.join(server.srvdir, ctl), steps),
+                                     "count", 0, roots=[env.work], timeout=RUN_TIMEOUT * 2)
+        ctx.count("forks")
+        ctx.count("histories")
+        _wait_tar(env.work)
+        if not env.usable(res):
+            return
+        out = res.get("result") or {}
+        if res.get("status") != "done" or out.get("ctor_exc") or len(out.get("steps", [])) != len(steps):
+            ctx.evaluated()
+            ctx.violation("history-run-broke", {"history": hist, "mode": "history", "status": res.get("status"), "exc": res.get("exc"),
+                                                "ctor_exc": out.get("ctor_exc"), "rule": str(res.get("exc_type") or res.get("status"))})
+            return
+        # ---- judge, step by step
+        last_complete = None if before_snap is None else ref.observed_tree(before_snap)   # the last complete tree seen at the path
+        if last_complete is not None and not last_complete:
+            last_complete = None
+        pending = []          # trees that interrupted syncs were installing
+        prev_snap = before_snap
+        for i, (st, ob) in enumerate(zip(steps, out["steps"])):
+            snap = ob.pop("snap")
+            rsnap = _sub(snap, REPO)
+            tree = None if rsnap is None else ref.observed_tree(rsnap)
+            prev_tree = None if prev_snap is None else ref.observed_tree(prev_snap)
+            olds = [t for t in [last_complete] if t]
+            had_old = bool(olds)
+            kind = st["kind"]
+            sib = {}
+            for nme in sorted(snap):
+                if "/" not in nme and nme != REPO:
+                    sub = _sub(snap, nme)
+                    sib[nme] = "non-directory" if sub is None else ref.state_of_any(ref.observed_tree(sub), olds + pending[:-1],
+                                                                                    pending[-1] if pending else None)
+            base = {"history": hist, "mode": "history", "step": i, "step_kind": kind, "interrupt": st.get("interrupt"), "obs": ob,
+                    "had_old": had_old, "siblings": sib, "steps_so_far": [dict(o, snap=None) for o in out["steps"][:i]]}
+            ctx.count("history_step:%s:%s" % (kind, "interrupted" if ob.get("interrupted") else ob.get("exc_type") or "ret=%r" % (ob.get("ret"),)))
+            ctx.evaluated()
+            if kind == "good" or (kind == "interrupt" and not ob.get("fired")):
+                want = exp[st["target"]]
+                if ob.get("ret") is not True or ob.get("exc_type") or not ref.same(tree, want):
+                    ctx.violation("history-good-sync-not-completed",
+                                  dict(base, rule=str(ob.get("exc_type") or ("tree" if ob.get("ret") is True else "ret=%r" % (ob.get("ret"),))),
+                                       diff_vs_expected=None if tree is None else ref.tree_diff(tree, want)))
+                else:
+                    ctx.nontrivial((sc["name"], "history", i, str(hist["steps"][: i + 1])))
+                if ref.same(tree, want):
+                    last_complete, pending = want, []
+            elif kind == "interrupt":
+                want = exp[st["target"]]
+                state = ref.state_of_any(tree, olds, want)
+                ctx.count("history_state_after_interrupt:" + state)
+                ctx.nontrivial((sc["name"], "history", i, str(hist["steps"][: i + 1])))
+                sib = {}
+                for nme in sorted(snap):
+                    if "/" not in nme and nme != REPO:
+                        sub = _sub(snap, nme)
+                        # (the interrupted sync may have been installing the very generation that is installed: "new" first)
+                        t_ = None if sub is None else ref.observed_tree(sub)
+                        sib[nme] = "non-directory" if sub is None else "new" if ref.same(t_, want) else ref.state_of_any(t_, olds, None)
+                was_complete = prev_tree is not None and bool(prev_tree) and any(ref.same(prev_tree, t) for t in olds + pending)
+                unchanged = (tree is None and prev_tree is None) or (tree is not None and prev_tree is not None and ref.same(tree, prev_tree))
+                if not ref.old_or_new(state, had_old) and not was_complete and unchanged:
+                    # the path already held no complete tree before this sync (reported at the step that caused it) and the
+                    # interrupted sync left it as it was: not a new violation -- unless the remaining copies are gone
+                    ctx.count("history_interrupt_left_incomplete_path_unchanged")
+                    trees = [ref.observed_tree(x) for x in (_sub(snap, nme) for nme in snap if "/" not in nme) if x is not None]
+                    if not any(ref.same(t, a) for t in trees for a in olds + pending + [want]):
+                        ctx.violation("interrupted-sync-lost-remaining-copies", dict(base, state=state, siblings=sib, rule=state))
+                elif not ref.old_or_new(state, had_old):
+                    ctx.violation("not-old-or-new", dict(base, mode="interrupt", op=[st["interrupt"][0], "%s call %d" % (st["interrupt"][2], st["interrupt"][1])],
+                                                         state=state, siblings=sib, rule="%s/interrupt" % state))
+                if state == "new":
+                    last_complete, pending = want, []
+                else:
+                    pending.append(want)
+            else:  # a sync that fails: 404 / truncated / corrupt
+                state = "absent" if tree is None else None
+                complete_before = prev_tree is not None and bool(prev_tree) and any(ref.same(prev_tree, t) for t in olds + pending)
+                if ob.get("exc_type"):
+                    ctx.nontrivial((sc["name"], "history", i, str(hist["steps"][: i + 1])))
+                if complete_before:
+                    ok, d = ref.untouched(prev_snap, rsnap, fssnap.diff)
+                    if not ok:
+                        ctx.violation("failed-sync-touched-tree", dict(base, rule="history/" + kind, snapshot_diff=d))
+                else:
+                    acceptable = olds + pending
+                    stt = "old" if any(ref.same(tree, t) for t in acceptable) else ("absent" if tree is None else "empty" if not tree else "mixed")
+                    ctx.count("history_state_after_failing:" + stt)
+                    if not ref.old_or_new(stt, bool(olds)):  # with no previous tree at all, a missing/empty directory still is "old"
+                        ctx.violation("failed-next-sync-lost-tree", dict(base, state=stt, rule="history/%s/%s" % (stt, kind)))
+                if tree is not None and any(ref.same(tree, t) for t in pending):
+                    last_complete, pending = tree, []
+            prev_snap = rsnap
+        # ---- the process has ended (exit handlers ran): a good sync in a fresh process must complete
+        base = {"history": hist, "mode": "history", "step": len(steps), "step_kind": "fresh-process", "had_old": True,
+                "steps_so_far": out["steps"]}
+        next_sync(ctx, env, base)
+    finally:
+        env.close()
+
+
+def history_plans(rng, n):
+    """The first four are fixed shapes (every quick run has them), the rest are drawn."""
+    plans = [
+        ("update", ["truncated", "good"]),
+        ("update", [("interrupt", "rename", 2, "before"), "good"]),
+        ("update", ["corrupt", "404", "good", ("interrupt", "mkdir", 3, "after"), "good"]),
+        ("initial", [("interrupt", "rename", 2, "before"), "truncated", "good"]),
+    ]
+    while len(plans) < n:
+        kinds = []
+        for _ in range(rng.randrange(2, 6)):
+            x = rng.random()
+            if x < 0.3:
+                kinds.append("good")
+            elif x < 0.65:
+                kinds.append(rng.choice(["404", "truncated", "corrupt"]))
+            else:
+                kinds.append(("interrupt",) + rng.choice(INTERRUPTS + INTERRUPTS[:1]))
+        kinds.append("good")
+        plans.append((rng.choice(["update", "update", "initial"]), kinds))
+    return plans[:n]
+
+
+def history_scenario(shape, idx):
+    comp = gen.COMPRESSIONS[idx % 3]
+    return {"name": "hist%d-%s-%s" % (idx, shape, comp), "comp": comp, "old": gen.tiny_tree("1") if shape == "update" else None,
+            "old_via": ("sync" if idx % 2 else "plain") if shape == "update" else None, "new": gen.tiny_tree("2"),
+            "later": gen.tiny_tree("3"), "serve": {"behaviour": "ok", "damage": None, "lastmod": False}}
+
+
+
 def _preimport():
     import pkgcore.sync.base  # noqa
     import pkgcore.sync.tar  # noqa
@@ -756,6 +1055,15 @@ def run(ctx):
     server = Server(os.path.join(scratch, "c47_srv_%d" % os.getpid()))
     try:
         rng = ctx.rng
+        # histories of syncs through one syncer object (cheap: two forks each), before anything a deadline could cut
+        plans = history_plans(__import__("random").Random(ctx.seed * 31 + 5), ctx.budget(8, 64))
+        for i, (shape, kinds) in enumerate(plans):
+            if i % ctx.nshards != ctx.shard:
+                continue
+            if ctx.out_of_time(60):
+                ctx.count("histories_cut_short")
+                break
+            run_history(ctx, server, make_history(history_scenario(shape, i), kinds), "h%d" % i)
         fails = gen.failure_scenarios(__import__("random").Random(ctx.seed), ctx.budget(len(gen.FAILURES), 3 * len(gen.FAILURES)), seed=ctx.seed)
         for i, sc in enumerate(fails):
             if i % ctx.nshards != ctx.shard:
@@ -791,7 +1099,7 @@ def classify(w):
     if kind == "not-old-or-new":
         # the process dies between rename(repo -> .repo.old) and rename(.repo.update -> repo): both complete trees exist,
         # neither at the repository path
-        if w.get("mode") in ("crash-before", "crash-after", "torn") and w.get("had_old") and w.get("state") == "absent" \
+        if w.get("mode") in ("crash-before", "crash-after", "torn", "interrupt") and w.get("had_old") and w.get("state") == "absent" \
                 and op[0] == "rename" and sib.get("." + REPO + ".old") in ("old", "new") and sib.get("." + REPO + ".update") == "new" \
                 and len(sib) == 2:
             return "rename-window"
@@ -817,6 +1125,10 @@ def replay(ctx, w):
     scratch = os.environ.get("VT_SCRATCH") or "/var/tmp"
     server = Server(os.path.join(scratch, "c47_srv_replay_%d" % os.getpid()))
     try:
+        if w.get("history"):
+            run_history(ctx, server, w["history"], "replay")
+            ctx.count("replayed_points")
+            return
         sc = w["scenario"]
         mode, k = w.get("mode", "none"), w.get("k", 0)
         if mode == "none":
